@@ -182,7 +182,7 @@ func (s *sim) doAckCrash(g int, n int64, k int) {
 		defer func() { _ = recover() }()
 		h.Ack(n)
 	}()
-	if !gt.waitHit(3 * time.Second) {
+	if !gt.waitHitOr(adone, 3*time.Second) {
 		gt.open()
 		<-adone
 		s.dead = true
@@ -253,7 +253,7 @@ func (s *sim) doRace2(g, g2 int, n int64, rng *rand.Rand) {
 		s.dead = true
 		s.c.Branch("race2/" + what + "-not-observed(case abandoned)")
 	}
-	if !ga.waitHit(3 * time.Second) {
+	if !ga.waitHitOr(adone, 3*time.Second) {
 		abandon("ack")
 		<-adone
 		return
@@ -368,7 +368,7 @@ func (s *sim) doSetAppSync(n int64) {
 		defer func() { _ = recover() }()
 		s.fq.SetAppendedSeq(n)
 	}()
-	if !gt.waitHit(3 * time.Second) {
+	if !gt.waitHitOr(rdone, 3*time.Second) {
 		gt.open()
 		<-rdone
 		s.dead = true
